@@ -33,7 +33,7 @@ CHECKS = {
          "For generated logical archives a second history (other permutation, detours, save+reopen in between) must serialise to the same bytes as the straight one, for all four codecs and both writers; the same history twice, a rewrite of a just-read archive, large archives with leaf spill, and two freshly spawned processes must agree too. Sampling search.",
          "Trusted: byte comparison only.", "DESIGN.md §4 C16"),
  "C19": ("exploration", "proptest placement of the offending element (history position, entry index, JSON kind, codec, API); Err-and-unchanged oracle with controls",
-         "Empty-content adds at generated points of histories on in-memory and reader-backed archives (must be Err; archive then equals the model and writes the same bytes as without them); a zero-length entry at any index of directories up to 10^3 entries x 4 codecs x sync/async serialiser and parser; every non-object JSON kind as metadata x open API; unknown internal compression on open and on every writer. Sampling search with positive controls so a reject-everything implementation fails.",
+         "Empty-content adds at generated points of histories on in-memory and reader-backed archives (must be Err; archive then equals the model and writes the same bytes as without them); a zero-length entry at any index of directories up to 10^3 entries x 4 codecs x sync/async serialiser and parser; every non-object JSON kind (incl. long multi-byte strings) as metadata x open API x full / empty / tiny filter ranges; unknown internal compression on open (same APIs and ranges) and on every writer. Sampling search with positive controls so a reject-everything implementation fails.",
          "Trusted: independent encoder for the parser-side bytes; spec writer for crafted archives.", "DESIGN.md §4 C19"),
 }
 
@@ -42,19 +42,19 @@ CHECKS.update({
          "Entry lists steered onto 16255..16259 and 16382..16386 bytes of single-root encoding and far on both sides, lists up to 10^5 entries, 4 codecs, initial leaf sizes {default,1,2,7,4096,>list}, sync/async, non-zero stream position, plus whole-archive writes around the threshold: root <= 16257, spill only when necessary, pointers carry first id / offset / exact length, leaves disjoint and decodable with nothing left over, concatenation = original entries, util::read_directories resolves to the reference expansion. Sampling search with exact hits on the budget edge counted as classes.",
          "Trusted: independent directory decoder and upstream decompressors; 'necessary' is judged with the library's own single-directory encoder (for none also the independent encoder's length).", "DESIGN.md §4 C06"),
  "C09": ("exploration", "enumeration of stored coordinate values (all 2^32 thorough / every 257th quick) + exhaustive byte codes and truncations + proptest fields and degrees vs independent header codec",
-         "Parse->serialise must reproduce the 127 bytes for every stored coordinate value in all six slots (exhaustive in the thorough tier); degrees are stored as the nearest multiple of 1e-7 by an exact rational oracle; the eleven u64 fields at boundary and random values in all sync/async reader/writer pairings; every byte value at the magic, version, clustered and enum positions; every truncation length and longer inputs (reader stops at 127).",
+         "Parse->serialise must reproduce the 127 bytes for every stored coordinate value in all six slots (exhaustive in the thorough tier); degrees are stored as the nearest multiple of 1e-7 by an exact rational oracle; the eleven u64 fields at boundary and random values in all sync/async reader/writer pairings; every byte value at the magic, version, clustered and enum positions; every truncation length and longer inputs (reader stops at 127); sequences of header writes on one thread with failing / full sinks and unserialisable versions in between (each write into a healthy sink emits exactly the 127 bytes).",
          "Trusted: harness/src/spec/header.rs (fixed offsets from the specification); tie tolerance of one f64 rounding error.", "DESIGN.md §4 C09"),
  "C12": ("exploration", "proptest differential: sync API vs async API on the same inputs; byte equality where no codec is involved",
-         "Foreign layouts, library-written recipes, entry lists (incl. forced spill, every initial leaf size) and headers: async readers must return what sync readers return (incl. partial opens and lookups); outputs of async writers must be read by both readers to the same content as the sync writers' and be byte-identical for uncompressed output, header settings/counters and tile data. Sampling search.",
+         "Foreign layouts, library-written recipes, entry lists (incl. forced spill, every initial leaf size) and headers: async readers must return what sync readers return (incl. partial opens and lookups); outputs of async writers must be read by both readers to the same content as the sync writers' and be byte-identical for uncompressed output, header settings/counters and tile data; an opened foreign archive re-written by the sync and by the async writer must agree in the same way. Sampling search.",
          "Trusted: the sync API as reference for the async one and vice versa (each is checked against independent oracles in C01/C03/C05).", "DESIGN.md §4 C12"),
  "C13": ("exploration", "exhaustive schedule enumeration (compositions, splits, cap sequences, Pending patterns) + proptest schedules; buffer-vs-fragmented differential",
          "All compositions of small directories (n <= 16), all 2-/3-part header splits, all 5^6 cap sequences and all 2^12 Pending patterns on small archives in all codecs, fixed caps 1..k and random schedules on generated archives: readers must return the same values and writers the same stream image and position as on an unfragmented stream. Exhaustive over the small scopes, sampled on full archives.",
          "Trusted: stream model harness/src/sio (short transfers >= 1 byte, waker woken before Pending, <= 3 consecutive Pending).", "DESIGN.md §4 C13"),
  "C14": ("exploration", "proptest byte strings x codec x chunk schedules; round-trip identity + differential against upstream crates and Python zlib",
-         "compress_all / streaming compress / compress_async paired with decompress_all / streaming decompress / decompress_async under generated write- and read-size schedules must be the identity for none/gzip/brotli/zstd on inputs from 0 bytes to 8 MiB; outputs must be standard streams for flate2/brotli/zstd (fully consumed) and, for gzip, Python's zlib; Unknown must be Err from all six entry points.",
+         "compress_all / streaming compress / compress_async paired with decompress_all / streaming decompress / decompress_async under generated write- and read-size schedules, over in-memory streams and over underlying streams that themselves transfer only a few bytes per call, must be the identity for none/gzip/brotli/zstd on inputs from 0 bytes to 8 MiB; outputs must be standard streams for flate2/brotli/zstd (fully consumed) and, for gzip, Python's zlib; Unknown must be Err from all six entry points.",
          "Trusted: upstream codec crates as decoders; Python zlib for gzip.", "DESIGN.md §4 C14"),
  "C15": ("fault_enumeration", "exhaustive fail-stop fault index enumeration over recorded operation logs, inputs sampled with proptest strategies",
-         "For 13 scenarios x 4 compressions x sync/async x sampled archives the fault-free run is recorded and every k < N is executed with operations k.. failing; the call must return Err (never Ok, never panic), with the single carve-out of zero-byte EOF probes. Exhaustive in k for every sampled instance (instances above an operation cap only in the thorough tier).",
+         "For 13 scenarios x 4 compressions x sync/async x sampled archives the fault-free run is recorded and every k < N is executed with operations k.. failing; the call must return Err (never Ok, never panic), with the single carve-out of zero-byte EOF probes. Exhaustive in k for every sampled instance (instances above an operation cap only in the thorough tier). Two further passes: a fixed-size sink of every capacity below the needed size, and generated archives whose source stream ends inside a generated tile (lookups of incomplete tiles and re-writing must be Err, complete tiles exact).",
          "Trusted: fail-stop fault model on the in-memory stream. One open known finding (Directory::to_writer sync + codec after flush).", "DESIGN.md §4 C15"),
  "C17": ("fault_enumeration", "exhaustive crash-point enumeration over the recorded write log, inputs sampled with proptest strategies",
          "For sampled archives (with/without spill, 4 codecs, sync/async) every prefix k in [0,N] of the recorded seek/write/flush/close operations is replayed into a fresh zero-filling stream; the image must be rejected by from_bytes unless it equals the complete archive. Exhaustive in k per instance.",
